@@ -746,6 +746,8 @@ func (w *weaver) call(c *ast.CallExpr) ast.Expr {
 	site := w.site(c)
 	origType := w.info().TypeOf(c)
 	obj := w.callee(c)
+	origFun := c.Fun
+	origArgs := append([]ast.Expr(nil), c.Args...)
 	// rewrite children first
 	c.Fun = w.expr(c.Fun)
 	for i := range c.Args {
@@ -846,6 +848,31 @@ func (w *weaver) call(c *ast.CallExpr) ast.Expr {
 	if (rpkg == "os" && rtyp == "File") || (rpkg == "encoding/gob" && (rtyp == "Encoder" || rtyp == "Decoder")) ||
 		(rpkg == "bufio" && (rtyp == "Writer" || rtyp == "Reader")) {
 		isIO = true
+	}
+	if !isIO && fn.Pkg() != w.pkg.Types {
+		// any other external call that is handed a file (buf.WriteTo(f),
+		// io.Copy(f, r), fmt.Fprintf(f, ...), binary.Write(f, ...)) performs
+		// file I/O on the caller's behalf
+		isFile := func(e ast.Expr) bool {
+			t := w.info().TypeOf(e)
+			if t == nil {
+				return false
+			}
+			if p, ok := t.(*types.Pointer); ok {
+				if n, ok := p.Elem().(*types.Named); ok && n.Obj().Pkg() != nil && n.Obj().Pkg().Path() == "os" && n.Obj().Name() == "File" {
+					return true
+				}
+			}
+			return false
+		}
+		for _, a := range origArgs {
+			if isFile(a) {
+				isIO = true
+			}
+		}
+		if sel, ok := unparen(origFun).(*ast.SelectorExpr); ok && isFile(sel.X) {
+			isIO = true
+		}
 	}
 	if isIO {
 		sig := fn.Type().(*types.Signature)
@@ -1338,6 +1365,18 @@ func (w *weaver) exprText(e ast.Expr) string {
 	return b.String()
 }
 
+// unsafeForConcurrentUse lists standard-library types whose methods must not
+// be called from several goroutines without synchronisation.
+func unsafeForConcurrentUse(pkg, typ string) bool {
+	switch pkg + "." + typ {
+	case "math/rand.Rand", "bytes.Buffer", "strings.Builder", "bufio.Reader", "bufio.Writer", "bufio.Scanner",
+		"container/list.List", "container/ring.Ring", "encoding/json.Encoder", "encoding/json.Decoder",
+		"encoding/csv.Writer", "encoding/csv.Reader", "text/tabwriter.Writer":
+		return true
+	}
+	return false
+}
+
 func isSyncType(t types.Type) bool {
 	for {
 		if p, ok := t.(*types.Pointer); ok {
@@ -1468,6 +1507,21 @@ func (w *weaver) collect(s ast.Stmt) []acc {
 				visit(x, false)
 			}
 		case *ast.CallExpr:
+			if fn, ok := w.callee(e).(*types.Func); ok {
+				// a method of a standard-library type that is documented as not
+				// safe for concurrent use: the call is a write to the object
+				if rp, rt := recvNamed(fn); unsafeForConcurrentUse(rp, rt) {
+					if sel, ok := unparen(e.Fun).(*ast.SelectorExpr); ok && w.pure(sel.X) {
+						if t := w.info().TypeOf(sel.X); t != nil {
+							if _, isPtr := t.Underlying().(*types.Pointer); isPtr {
+								out = append(out, acc{expr: sel.X, ptr: true, text: "obj:" + w.exprText(sel.X), name: rp + "." + rt, write: true})
+							} else if tv, ok := w.info().Types[sel.X]; ok && tv.Addressable() {
+								out = append(out, acc{expr: sel.X, text: "obj:" + w.exprText(sel.X), name: rp + "." + rt, write: true})
+							}
+						}
+					}
+				}
+			}
 			if b, ok := w.callee(e).(*types.Builtin); ok && b.Name() == "append" && len(e.Args) >= 1 && simpleStmt {
 				if name, ok := w.sliceName(e.Args[0]); ok && w.pure(e.Args[0]) {
 					var cnt ast.Expr = intLit(len(e.Args) - 1)
